@@ -14,6 +14,26 @@ TV = 'translation_validation'
 
 # id -> (category, text, design_ref, level_note, technique)
 CLAIMS = {
+    'C09': (MC,
+            'Three TLA+ pieces: (1) FdlSerial models ARBITRARY documents (object tables of leaves, pyrefs, lists with '
+            'shared objects) and symbol statuses (approved / refused by allows_import / value rejected by '
+            'allows_value / missing); TLC enumerates every document and status assignment in the bound with the '
+            'loader\'s walk, the required outcome and the set of symbols it may import, and checks PolicySound; every '
+            'document is built for real and loaded under a recording policy with symbols whose every resolution is '
+            'logged (outcome, nothing refused is ever resolved, nothing beyond the need is resolved, no callable '
+            'runs, decoded value). (2) MC_Heaps generates every configuration in the bound (Partials, tags, tagged '
+            'arguments without value, stand-alone TaggedValues, tuples, named tuples, dicts with keys of mixed '
+            'types, shared containers); each is dumped, parsed by a strict JSON parser, loaded under the recording '
+            'policy with recording callables, projected and compared, and re-dumped. (3) FdlBytes is the codec model '
+            'for bytes: the codec as found violates LosslessOrLoud (negative control), the repaired one satisfies '
+            'it. Leaf value classes (big ints, special floats, arbitrary str/bytes, enums, sets, slices, named '
+            'tuples, defaultdicts, NO_VALUE, dict keys of every serializable type, dict-based objects) are '
+            'exploration on the real library.',
+            'DESIGN.md §5 C09',
+            'Trusted: TLC, harness projection, CPython json for numeral/text fidelity (exploration part). Known '
+            'finding: special floats are emitted as NaN/Infinity tokens.',
+            'TLA+ document/policy model with exhaustive documents from TLC; heap round trips; codec model with '
+            'negative control'),
     'C19': (MC,
             'FdlThreads models fiddle\'s module-level state (thread-local build guard and tracking flag, the history '
             'counter, the signature cache, the exception-proxy cache) with one action per access and TLC explores '
